@@ -108,7 +108,10 @@ func scenarios(r *rand.Rand, n int) []*Scenario {
 		return &Scenario{Req: Req{ID: idp.S(fmt.Sprintf("_lo%d", i)), IssueInstant: at(-time.Minute), Issuer: idp.S(spEntity), NameID: idp.S("user")},
 			Transport: pick(r, []string{"post", "post", "redirect", "post-deflate-declared"}), Relay: pick(r, relays), Known: true,
 			SLO: [][]idp.SLO{nil, {{Binding: idp.PostBinding, Location: "https://sp.example/slo"}}, {{Binding: idp.RedirBinding, Location: "https://sp.example/slo-redirect?x=1&y=2"}, {Binding: idp.PostBinding, Location: "https://sp.example/slo2"}},
-				{{Binding: idp.PostBinding, Location: "https://sp.example/ü's"}}}[r.Intn(4)]}
+				{{Binding: idp.PostBinding, Location: "https://sp.example/ü's"}},
+				{{Binding: idp.PostBinding, Location: "https://sp.example/slo", ResponseLocation: "https://responses.example/slo-return"}},
+				{{Binding: idp.PostBinding, Location: "https://sp.example/slo-a"}, {Binding: idp.PostBinding, Location: "https://sp.example/slo-b", ResponseLocation: "https://sp.example/slo-b-return"}},
+				{{Binding: "urn:oasis:names:tc:SAML:2.0:bindings:SOAP", Location: "https://sp.example/slo-soap"}, {Binding: idp.PostBinding, Location: "http://sp.example:8080/slo"}}}[r.Intn(7)]}
 	}
 	var out []*Scenario
 	muts := []func(*Scenario){
